@@ -72,7 +72,9 @@ def species_cases(fmt, proc):
     ice = (lambda n: "G" + n) if fmt == "leeds" else (lambda n: "#" + n)
     if proc == "freeze":
         return [(["CO"], [ice("CO")], "neutral", "none"), (["HCO+"], [ice("HCO")], "ion", "none"), (["e-"], ["GRAIN-"], "electron", "none"),
-                (["SiO"], [ice("SiO")], "neutral", "none")]
+                (["SiO"], [ice("SiO")], "neutral", "none"),
+                # negative ions other than the electron are ions too (the Coulomb factor applies)
+                (["OH-"], [ice("OH")], "ion", "none"), (["H-"], [ice("H")], "ion", "none")]
     if proc in ("thermal", "photon", "cosmicray", "h2"):
         return [([ice("CO")], ["CO"], "neutral", "none"), ([ice("H2O")], ["H2O"], "neutral", "none"), ([ice("CH3OH")], ["CH3OH"], "neutral", "none")]
     if proc in ("surface", "reactive"):
